@@ -332,6 +332,32 @@ def _def_call(w: World, rep: Report):
             rep.check('C06.R6', 'functions.OP_DEF|value-is-new-subtape-of-body', ok, line=n.line, file=rel,
                       why='' if ok else 'the stored definition is not a fresh Tape over the body bytes just read '
                       '(an older binding or another object is kept instead)')
+    # the body resolves its own CALLs in the defining tape's table itself (late binding): with a snapshot, a function
+    # defined before a later DEF of some handle keeps calling the older binding of that handle - possibly one an earlier
+    # script (the witness) made
+    shares = []
+    for n in cfg.nodes:
+        for e in node_events(n):
+            if e[0] == 'store' and isinstance(e[1], ast.Attribute) and e[1].attr == 'definitions' and len(e) > 2 \
+                    and e[2] is not None:
+                ko = kinds.of(e[1].value, n)
+                if all(l.tag == 'new' and l.cls == 'Tape' for l in ko.leaves()):
+                    shares.append((n, kinds.path(kinds.of(e[2], n)) == f'{own}.definitions', ast.unparse(e[2])))
+        if n.ast is not None and n.kind != 'except':
+            for x in ast.walk(n.ast):
+                if isinstance(x, ast.Call) and dotted(x.func) == 'Tape':
+                    for kw in x.keywords:
+                        if kw.arg == 'definitions':
+                            shares.append((n, kinds.path(kinds.of(kw.value, n)) == f'{own}.definitions', ast.unparse(kw.value)))
+    ok = bool(shares) and all(s[1] for s in shares) and \
+        cfg.must_pass(cfg.entry, cfg.exit, through_nodes=[s[0] for s in shares])
+    rep.check('C06.R6', 'functions.OP_DEF|body-shares-the-definition-table', ok, line=d.node.lineno, file=rel,
+              why='' if ok else
+              (f'the function body gets `{shares[0][2]}` as its definitions' if shares else
+               'the function body is not given the defining tape\'s definitions') +
+              ', not the defining tape\'s table itself: CALLs inside the body resolve in a snapshot taken at DEF time, '
+              'so a handle the same script defines later still names whatever an earlier script bound to it '
+              '(or nothing) when called from this body')
     c = w.handler_for('OP_CALL')
     cfg = w.cfg(c)
     kinds = w.kinds(c)
@@ -339,6 +365,40 @@ def _def_call(w: World, rep: Report):
     runs = cfg.nodes_with_call(lambda x: isinstance(x.func, ast.Name) and x.func.id == 'run_tape')
     if not runs:
         raise AnalysisError('OP_CALL no longer calls run_tape')
+    # the definition tape is shared by every activation of the function: CALL saves its pointer, rewinds it, runs it and
+    # puts the saved pointer back, so an outer activation of the same function (recursion) continues where it was
+    for n, call in runs:
+        T = call.args[0].id if call.args and isinstance(call.args[0], ast.Name) else None
+        stores = []
+        for q in cfg.nodes:
+            for e in node_events(q):
+                if e[0] == 'store' and isinstance(e[1], ast.Attribute) and e[1].attr == 'pointer' and \
+                        isinstance(e[1].value, ast.Name) and e[1].value.id == T and len(e) > 2:
+                    stores.append((q, e[2]))
+        rewinds = [q for q, v in stores if cfg.dominates(q, n) and isinstance(v, ast.Constant) and v.value == 0] + \
+            [q for q, c in cfg.nodes_with_call(lambda c: isinstance(c.func, ast.Attribute) and c.func.attr == 'reset_pointer'
+                                               and isinstance(c.func.value, ast.Name) and c.func.value.id == T)
+             if cfg.dominates(q, n)]
+        post = [(q, v) for q, v in stores if cfg.dominates(n, q) and q is not n]
+        why = ''
+        if T is None or not rewinds:
+            why = 'the definition tape is not rewound to 0 before it is run'
+        elif not post or not cfg.must_pass(n, cfg.exit, through_nodes=[q for q, _ in post]):
+            why = ('the pointer of the definition tape is not put back after the run on every normal path: an outer activation '
+                   'of the same function (recursion) would not continue after its own CALL')
+        else:
+            for q, v in post:
+                good = False
+                if isinstance(v, ast.Name):
+                    defs = cfg.defs_reaching(v.id, q)
+                    good = bool(defs) and all(
+                        how == 'assign' and isinstance(pl, ast.Attribute) and pl.attr == 'pointer' and
+                        isinstance(pl.value, ast.Name) and pl.value.id == T and
+                        all(cfg.dominates(dn, r) for r in rewinds) for dn, how, pl in defs)
+                if not good:
+                    why = (f'after the run the pointer of the definition tape is set to `{ast.unparse(v)[:30]}`, not to the value it '
+                           f'had before the rewind: an outer activation of the same function (recursion) resumes at the wrong place')
+        rep.check('C06.R6', 'functions.OP_CALL|pointer-saved-rewound-restored', not why, line=n.line, file=rel, why=why)
     for n, call in runs:
         kt = kinds.of(call.args[0], n)
         ok = all(l.tag == 'index' and kinds.path(l.src) == f'{own}.definitions' and
